@@ -18,7 +18,7 @@ DECIDING = ["abort_points", "line_events"]
 MIN_DECIDED_RATIO = 0.65  # an abort point is undecided when the member never reaches it: outside its scan, or (projection kind) on a line that does not match
 RULE = (
     "for generated groups of 1-4 members and files of 2-8 lines: every (member, line) abort point x fault kind {argument rejected, "
-    "exception inside the function, failure reported as a chained exception, failure outside the match part (line too short for the member's collect() projection)} x the six run methods, each followed by one normal run on the same instance. Non-trivial: every case "
+    "exception inside the function, failure reported as a chained exception, failure outside the match part (line too short for the member's collect() projection), failure of a last() component on a blank final record} x the six run methods, each followed by one normal run on the same instance. Non-trivial: every case "
     "(an abort happens in each); distinct = distinct (group size, member index, line, kind, method, member skeletons)."
 )
 ASSUMPTIONS = [
@@ -34,9 +34,11 @@ FAULT_COMP = {
     # a failure outside any match component: the member projects its collected lines onto columns 0 and 5 and the
     # fault line is too short for that (raised by the run loop after the line has matched)
     "projection": ["fn", "collect", [["int", 0], ["int", 5]], []],
+    # a failure on a record without cells: the file ends in a blank line and a last() component fails there
+    "blank-last": ["when", ["fn", "last", [], []], ["assign", "zz9", None, [], ["fn", "mod", [["int", 7], ["int", 0]], []]]],
 }
-FAULT_CELL = {"argtype": "zz", "pyexc": "0", "chained": "not-a-date", "projection": None}
-FAULT_COL = {"argtype": 4, "pyexc": 4, "chained": 5, "projection": 5}
+FAULT_CELL = {"argtype": "zz", "pyexc": "0", "chained": "not-a-date", "projection": None, "blank-last": None}
+FAULT_COL = {"argtype": 4, "pyexc": 4, "chained": 5, "projection": 5, "blank-last": None}
 
 
 def plan(tier, seed):
@@ -77,6 +79,8 @@ def check_abort(case, agg):
     rows = [list(r_) for r_ in rows_clean]
     if kind == "projection":
         rows[line] = rows[line][:5]
+    elif kind == "blank-last":
+        rows.append([])  # (line == len(rows_clean): the appended blank record)
     else:
         rows[line][FAULT_COL[kind]] = FAULT_CELL[kind]
     progs = [dict(p) for p in members]
@@ -94,7 +98,7 @@ def check_abort(case, agg):
     cps.add_file(cs, "clean", rows_clean, srcname="clean.csv")
     texts = [cps.member_text(p, ident=f"m{j}") for j, p in enumerate(progs)]
     cs.paths_manager.add_named_paths(name="grp", paths=texts)
-    follow_group = "grp" if (case.get("follow", 0) % 2 == 0 and kind != "projection") else "other"
+    follow_group = "grp" if (case.get("follow", 0) % 2 == 0 and kind not in ("projection", "blank-last")) else "other"
     cs.paths_manager.add_named_paths(name="other", paths=[cps.member_text(p, ident=f"m{j}") for j, p in enumerate(members)])
     inputs_before = cps.tree("inputs")
     w = {"members": texts, "rows": rows, "method": method, "abort_member": i, "abort_line": line, "kind": kind, "csvpaths_policy": cps_policy}
@@ -224,6 +228,8 @@ def cases_for_group(seed, shard, gi, methods):
     members = [gen_member(r, rows, j) for j in range(n)]
     k = 0
     for i in range(n):
+        k += 1
+        yield {"members": members, "rows": rows, "member": i, "line": nlines, "kind": "blank-last", "method": methods[k % len(methods)], "pos": 99, "follow": k}
         for line in range(0, nlines):
             for kind in ("argtype", "pyexc", "chained", "projection"):
                 method = methods[k % len(methods)]
